@@ -212,7 +212,8 @@ func (f *Frame) frameObl(ref, key, idx, why, pos string) {
 		return // allocated by this activation, or private mutable state of the component (owns clause)
 	}
 	goal := app(">=", ref, s.alloc0)
-	for mk, locs := range s.modKeys {
+	for _, mk := range sortedModKeys(s.modKeys) {
+		locs := s.modKeys[mk]
 		if mk == key || strings.HasPrefix(key, mk+".") {
 			for _, l := range locs {
 				goal = or(goal, eq(ref, l.Ref))
